@@ -170,3 +170,11 @@ package util
 //@ modifies chars.slice
 // the event box is a mutex-protected map shared between goroutines: outside the contracts
 //@ func EventBox.Set trusted
+
+// ToRunes: the characters as runes (the rune view itself, or a fresh widening copy of the bytes)
+//@ func Chars.ToRunes
+//@ requires chars != nil && validChars(chars)
+//@ ensures len(result) == clen(chars) && forall(k, 0, len(result), result[k] == at(chars, k))
+//@ loop 1
+//@   writes runes[*]
+//@   invariant len(runes) == len(bytes) && fresh(runes) && forall(k, 0, iter, runes[k] == bytes[k])
